@@ -16,7 +16,7 @@ import z3
 
 from pysym import values
 from pysym.core import Explorer, Frame, Func, Infeasible, Interp
-from pysym.values import Num, tz, wrapb
+from pysym.values import Num, PathRaise, tz, wrapb
 
 from .framework import model_ints
 
@@ -53,14 +53,20 @@ class FakeSindex:
 
     def __init__(self, it, lbounds, order):
         self.it, self.lb, self.order = it, lbounds, order
+        self.ncalls = 0
 
     def intersects(self, b):
-        """C03 contract: exactly the rows whose (non-NaN) bounds overlap b, in the given arbitrary order"""
+        """C03 contract: exactly the rows whose (non-NaN) bounds overlap b, in the given arbitrary order.  A query with NaN
+        entries is outside that contract (C03 assumes lo <= hi): any subset of the rows may come back"""
         b = [Num.lift(x) for x in b]
+        qnan = values.Or(*[wrapb(x.nan) for x in b])
+        self.ncalls += 1
         out = []
         for i in self.order:
             lo0, lo1, hi0, hi1 = self.lb[i]
             c = values.And(hi0 >= b[0], lo0 <= b[2], hi1 >= b[1], lo1 <= b[3])
+            if qnan is not False:
+                c = values.Or(values.And(values.Not(qnan), c), values.And(qnan, wrapb(z3.Bool(f'U{self.ncalls}_{i}'))))
             if self.it.truth(c) is True:
                 out.append(i)
         return np.array(out, dtype=np.uint32)
@@ -73,6 +79,8 @@ class FakeLeftGeom:
         self.J, self.calls = J, calls
 
     def intersects(self, shape, inds=None):
+        if shape is None:          # what PointArray.intersects does with an unsupported operand (read from the real code by the replay)
+            raise PathRaise(ValueError, 'Unsupported intersection type NoneType')
         r = shape[1]
         self.calls.append((r, [int(x) for x in inds]))
         out = np.empty(len(inds), dtype=object)
@@ -84,7 +92,12 @@ class FakeLeftGeom:
 class FakeRightGeom:
     _pysym_model = True
 
+    def __init__(self, it=None, rmiss=None):
+        self.it, self.rmiss = it, rmiss
+
     def __getitem__(self, i):
+        if self.rmiss is not None and self.it.truth(wrapb(self.rmiss[int(i)])) is True:
+            return None                      # a missing element is handed out as None
         return ('shape', int(i))
 
 
@@ -109,9 +122,10 @@ def explore(nl, nr, order=None, timeout=600, max_paths=50000):
     rb = [[z3.Real(f'r{i}_{j}') for j in range(4)] for i in range(nr)]
     lnan = [z3.Bool(f'lnan{i}') for i in range(nl)]
     rnan = [z3.Bool(f'rnan{i}') for i in range(nr)]
+    rmiss = [z3.Bool(f'rmiss{i}') for i in range(nr)]        # missing (None) right geometry; rnan without rmiss: an empty one
     J = [[z3.Bool(f'J{l}_{r}') for r in range(nr)] for l in range(nl)]
-    allv = [v for row in lb + rb for v in row] + lnan + rnan + [j for row in J for j in row]
-    assumptions = [row[0] <= row[2] for row in lb + rb] + [row[1] <= row[3] for row in lb + rb]
+    allv = [v for row in lb + rb for v in row] + lnan + rnan + rmiss + [j for row in J for j in row]
+    assumptions = [row[0] <= row[2] for row in lb + rb] + [row[1] <= row[3] for row in lb + rb] + [z3.Implies(rmiss[i], rnan[i]) for i in range(nr)]
     for l in range(nl):
         for r in range(nr):
             overlap = z3.And(z3.Not(lnan[l]), z3.Not(rnan[r]), lb[l][2] >= rb[r][0], lb[l][0] <= rb[r][2], lb[l][3] >= rb[r][1], lb[l][1] <= rb[r][3])
@@ -134,17 +148,20 @@ def explore(nl, nr, order=None, timeout=600, max_paths=50000):
                 rbounds[i, j] = Num(rb[i][j], rnan[i])
         fpd = FakePd()
         left_df = Obj(geometry=Obj(sindex=FakeSindex(it, lbn, order), array=FakeLeftGeom(J, calls)), n=nl)
-        right_df = Obj(geometry=Obj(array=FakeRightGeom(), bounds=Obj(values=rbounds)), n=nr)
+        right_df = Obj(geometry=Obj(array=FakeRightGeom(it, rmiss), bounds=Obj(values=rbounds)), n=nr)
         Obj.__len__ = lambda self: self.n
         fr = Frame(True, f)
         fr.env = {'left_df': left_df, 'right_df': right_df, 'pd': fpd, 'how': 'inner', 'op': 'intersects', 'lsuffix': 'left', 'rsuffix': 'right'}
+        raised = None
         try:
             it.block(stmts, fr, True)
         except Infeasible:
             continue
+        except PathRaise as e:
+            raised = f'{getattr(e.exc, "__name__", e.exc)}: {e.text}'
         ex.paths += 1
-        conds = [z3.BoolVal(len(fpd.frames) == 1)]
-        if len(fpd.frames) == 1:
+        conds = [z3.BoolVal(len(fpd.frames) == 1 and raised is None)]
+        if len(fpd.frames) == 1 and raised is None:
             d = fpd.frames[0]
             kl = [int(x) for x in np.asarray(d.get('_key_left', []), dtype=object).ravel()] if '_key_left' in d else None
             kr = [int(x) for x in np.asarray(d.get('_key_right', []), dtype=object).ravel()] if '_key_right' in d else None
@@ -165,13 +182,13 @@ def explore(nl, nr, order=None, timeout=600, max_paths=50000):
         nq += 1
         if r_ == 'sat':
             m = ex.solver.model()
-            viol = {'model': model_ints(m, allv), 'pairs': str(fpd.frames)[:300]}
+            viol = {'model': model_ints(m, allv), 'pairs': str(fpd.frames)[:300], 'raised': raised}
             # prefer a rectangle-realisable counterexample (J == bounds overlap, positive extents)
             ex.solver.add(*[J[l][r] == z3.And(z3.Not(lnan[l]), z3.Not(rnan[r]), lb[l][2] >= rb[r][0], lb[l][0] <= rb[r][2], lb[l][3] >= rb[r][1], lb[l][1] <= rb[r][3])
                             for l in range(nl) for r in range(nr)])
             ex.solver.add(*[z3.And(lb[l][0] == lb[l][2], lb[l][1] == lb[l][3]) for l in range(nl)])     # left rows are points
             if str(ex.solver.check()) == 'sat':
-                viol = {'model': model_ints(ex.solver.model(), allv), 'pairs': str(fpd.frames)[:300], 'rect': True}
+                viol = {'model': model_ints(ex.solver.model(), allv), 'pairs': str(fpd.frames)[:300], 'rect': True, 'raised': raised}
             ex.solver.pop()
             break
         ex.solver.pop()
@@ -205,32 +222,35 @@ def replay(nl, nr, model, rect):
         lpts.append(None if model.get(f'lnan{i}') else [g(f'l{i}_0'), g(f'l{i}_1')])
     kinds = set()
     for i in range(nr):
+        if model.get(f'rmiss{i}'):
+            rshapes.append(None)          # missing
+            continue
         if model.get(f'rnan{i}'):
-            rshapes.append(None)
+            rshapes.append([])            # empty: no coordinates, NaN bounds
             continue
         x0, y0, x1, y1 = g(f'r{i}_0'), g(f'r{i}_1'), g(f'r{i}_2'), g(f'r{i}_3')
         rshapes.append([x0, y0, x1, y0, x1, y1, x0, y1, x0, y0])
     # right shapes as multilines of the rectangle outline would miss interior points: use polygons unless degenerate
-    degenerate = any(s is not None and (s[0] == s[2] or s[1] == s[5]) for s in rshapes)
-    if any(p is None for p in lpts):
-        return False, {'note': 'counterexample needs a missing left point'}
+    degenerate = any(s and (s[0] == s[2] or s[1] == s[5]) for s in rshapes)
     left = sp.GeoDataFrame({'geometry': sg.PointArray(lpts, dtype='float64'), 'lid': list(range(nl))})
     if degenerate:
         # degenerate extents: segments / points; a left point lies on a segment iff inside its (degenerate) bounds
-        right_geom = sg.LineArray([None if s is None else [s[0], s[1], s[4], s[5]] for s in rshapes], dtype='float64')
-        if any(s is not None and s[0] != s[2] and s[1] != s[5] for s in rshapes):
+        right_geom = sg.LineArray([None if s is None else ([s[0], s[1], s[4], s[5]] if s else []) for s in rshapes], dtype='float64')
+        if any(s and s[0] != s[2] and s[1] != s[5] for s in rshapes):
             return False, {'note': 'mix of degenerate and proper right extents: no single right geometry kind realises it'}
     else:
-        right_geom = sg.PolygonArray([None if s is None else [s] for s in rshapes], dtype='float64')
-    if any(s is None for s in rshapes):
-        return False, {'note': 'counterexample needs a missing right geometry (sjoin raises for it on the pinned tree)'}
+        right_geom = sg.PolygonArray([None if s is None else ([s] if s else []) for s in rshapes], dtype='float64')
     right = sp.GeoDataFrame({'geometry': right_geom, 'rid': list(range(nr))})
     want = []
     for l in range(nl):
         for r in range(nr):
             s = rshapes[r]
+            if not s:
+                continue                  # a missing or empty right geometry matches nothing (C17)
             x0, y0, x1, y1 = s[0], s[1], s[4], s[5]
             p = lpts[l]
+            if p is None:
+                continue                  # a missing left point matches nothing
             strictly = x0 < p[0] < x1 and y0 < p[1] < y1
             on_edge = (x0 <= p[0] <= x1 and y0 <= p[1] <= y1) and not strictly
             if degenerate:
@@ -241,6 +261,7 @@ def replay(nl, nr, model, rect):
             elif on_edge:
                 return False, {'note': 'left point on a polygon boundary: outside the guarantee'}
     wit = {'left_points': lpts, 'right_shapes': rshapes, 'right_kind': 'line' if degenerate else 'polygon'}
+    wit['expected'] = sorted(want)
     try:
         res = sjoin(left, right, how='inner')
         got = sorted((int(a), int(b)) for a, b in zip(res['lid'], res['rid']))
